@@ -121,6 +121,22 @@ fn filter_shapes(shown_df: &str, shown: u32, pi_bits: u32) -> (Vec<(String, Opti
         ("high-bit".to_string(), Some(vec![shown ^ 0x800000])),
         ("other+parity-field".to_string(), Some(vec![other, pi_bits])),
     ];
+    // lists of three and four addresses in every order (membership must not depend on the order)
+    let mut acfs = acfs;
+    let lo = shown.wrapping_sub(0x1234) & 0xffffff;
+    let hi = (shown + 0x4321) & 0xffffff;
+    let perm3 = |a: u32, b: u32, c: u32| vec![vec![a, b, c], vec![a, c, b], vec![b, a, c], vec![b, c, a], vec![c, a, b], vec![c, b, a]];
+    for (i, l) in perm3(lo, shown, hi).into_iter().enumerate() {
+        acfs.push((format!("three-with-shown#{i}"), Some(l)));
+    }
+    for (i, l) in perm3(lo, other, hi).into_iter().enumerate() {
+        acfs.push((format!("three-without-shown#{i}"), Some(l)));
+    }
+    for (i, l) in [vec![hi, lo, shown, other], vec![shown, hi, other, lo], vec![other, hi, lo, shown], vec![hi, other, lo, shown ^ 2]].into_iter().enumerate() {
+        acfs.push((format!("four#{i}"), Some(l)));
+    }
+    let mut dffs = dffs;
+    dffs.push(("unsorted-with-shown".to_string(), Some(vec!["21".to_string(), shown_df.to_string(), "0".to_string(), "5".to_string()])));
     (dffs, acfs)
 }
 
@@ -188,7 +204,7 @@ pub fn run(ctx: &Ctx, rep: &Report) {
     rep.nontriv(nontriv);
     rep.state(recs.len() as u64 * 2);
     rep.part("filters", cases, json!({"records": recs.len(), "addresses": addrs.len()}));
-    rep.set_bound(&format!("{} record kinds x {} addresses x decoded/undecoded x 7 df-filter shapes x 9 aircraft-filter shapes", recs.len() / addrs.len(), addrs.len()));
+    rep.set_bound(&format!("{} record kinds x {} addresses x decoded/undecoded x 8 df-filter shapes x 25 aircraft-filter shapes (incl. lists of 3 in all 6 orders)", recs.len() / addrs.len(), addrs.len()));
     rep.assume("filter lists are judged by membership only (order and duplicates are not part of the property)");
 }
 
